@@ -283,3 +283,31 @@ func sanitize(s string) string {
 		return '_'
 	}, s)
 }
+
+// Replay re-evaluates the property (already done by the caller) and reports only the obligation stored in the replay file.
+func (r *Report) Replay(root, file string) int {
+	data, err := os.ReadFile(file)
+	if err != nil {
+		fmt.Println("cannot read replay file:", err)
+		return 2
+	}
+	var rf struct {
+		Obligation Obligation `json:"obligation"`
+	}
+	if err := json.Unmarshal(data, &rf); err != nil {
+		fmt.Println("cannot parse replay file:", err)
+		return 2
+	}
+	code := r.Finish(root)
+	for _, o := range r.Obls {
+		if o.Key == rf.Obligation.Key {
+			fmt.Printf("REPLAY %s: obligation %s is now %s: %s (%s)\n", r.Property, o.Key, o.Status, o.How, o.Pos)
+			if o.Status == Violated || o.Status == Undecided {
+				return 1
+			}
+			return 0
+		}
+	}
+	fmt.Printf("REPLAY %s: obligation %s no longer exists on this tree (overall exit %d)\n", r.Property, rf.Obligation.Key, code)
+	return code
+}
